@@ -4,6 +4,7 @@ import (
 	"fmt"
 	"go/ast"
 	"go/token"
+	"go/types"
 	"strings"
 
 	"defracheck/internal/eng"
@@ -17,6 +18,7 @@ func init() {
 			{"VF-ISOLATED", ruleVFIsolated},
 			{"VF-SAME-MERGE", ruleVFSameMerge},
 			{"SUB-CID", ruleSubCid},
+			{"CID-PLUMB", ruleCidPlumb},
 			{"ACP-PLUMB", ruleACPPlumb},
 			{"LWW-TABLE", ruleLWWTable},
 			{"COUNTER-MERGE", ruleCounterMerge},
@@ -185,4 +187,117 @@ func ruleVFSameMerge(c *eng.Ctx) {
 		c.Check(reinit, rule, "seekTo:queue-reset", st.Decl.Pos(), "queue reset at every seek", "the replay queue is not reset per seek: a second query on the same fetcher replays the previous target again")
 	}
 	_ = token.NoPos
+}
+
+// ruleCidPlumb: whether a select runs as a time-travel query is decided by the request's cid
+// alone: selectNode.initSource hands exactly the request's Cid option to scanNode.initFetcher, and
+// initFetcher installs the VersionedFetcher exactly when that option has a value.
+func ruleCidPlumb(c *eng.Ctx) {
+	const rule = "CID-PLUMB"
+	initF := c.Anchor(rule, "internal/planner.(*scanNode).initFetcher")
+	src := c.Anchor(rule, "internal/planner.(*selectNode).initSource")
+	if initF == nil || src == nil {
+		return
+	}
+	// (a) call sites in initSource
+	info := src.Pkg.TypesInfo
+	isReqCid := func(e ast.Expr) bool {
+		se, ok := ast.Unparen(e).(*ast.SelectorExpr)
+		if !ok || se.Sel.Name != "Cid" {
+			return false
+		}
+		t := eng.TypeName(info.TypeOf(se.X))
+		return strings.HasSuffix(t, "mapper.Select") || strings.HasSuffix(t, "request.Select")
+	}
+	n := 0
+	for _, cs := range eng.Calls(info, src.Decl.Body) {
+		if cs.Callee != initF.Obj || len(cs.Call.Args) != 1 {
+			continue
+		}
+		n++
+		arg := cs.Call.Args[0]
+		good := isReqCid(arg)
+		if o := eng.ObjOf(info, arg); !good && o != nil {
+			// a local: every assignment to it is the request's cid
+			all, cnt := true, 0
+			ast.Inspect(src.Decl.Body, func(m ast.Node) bool {
+				if as, ok := m.(*ast.AssignStmt); ok {
+					for i, l := range as.Lhs {
+						if eng.ObjOf(info, l) == o {
+							cnt++
+							if len(as.Rhs) != len(as.Lhs) || !isReqCid(as.Rhs[i]) {
+								all = false
+							}
+						}
+					}
+				}
+				return true
+			})
+			good = all && cnt > 0
+		}
+		c.Check(good, rule, fmt.Sprintf("initSource:initFetcher#%d:arg=request-cid", n), cs.Call.Pos(), "the fetcher kind is chosen from the request's cid",
+			"initFetcher receives "+eng.ExprStr(arg)+", which is not (always) the request's cid: a query at a commit can be served from the current state (or a current query replayed from history) depending on something other than the request")
+	}
+	c.Floor(rule, n, 1)
+	// (b) decision in initFetcher
+	finfo := initF.Pkg.TypesInfo
+	flow := eng.NewFlow(finfo, initF.Decl.Body)
+	var param types.Object
+	if ps := paramObjs(finfo, initF.Decl); len(ps) == 1 {
+		param = ps[0]
+	}
+	for _, has := range []bool{true, false} {
+		outs, trunc := flow.Paths(eng.PathSpec{
+			Cond: func(br eng.Branch) eng.Tri {
+				return eng.BranchTri(finfo, br, func(e ast.Expr) eng.Tri {
+					if call, ok := ast.Unparen(e).(*ast.CallExpr); ok {
+						if se, ok := call.Fun.(*ast.SelectorExpr); ok && se.Sel.Name == "HasValue" && eng.ObjOf(finfo, se.X) == param {
+							return eng.TriOf(has)
+						}
+					}
+					return eng.Unknown
+				})
+			},
+			Effect: func(nd ast.Node) string {
+				lbl := ""
+				ast.Inspect(nd, func(x ast.Node) bool {
+					switch y := x.(type) {
+					case *ast.CallExpr:
+						if id, ok := y.Fun.(*ast.Ident); ok && id.Name == "new" && len(y.Args) == 1 && strings.HasSuffix(eng.TypeName(finfo.TypeOf(y.Args[0])), "fetcher.VersionedFetcher") {
+							lbl = "versioned"
+						}
+						if strings.Contains(eng.CalleeName(finfo, y), "NewVersionedFetcher") {
+							lbl = "versioned"
+						}
+					case *ast.CompositeLit:
+						if strings.HasSuffix(eng.TypeName(finfo.TypeOf(y)), "fetcher.VersionedFetcher") {
+							lbl = "versioned"
+						}
+					}
+					return true
+				})
+				return lbl
+			},
+		})
+		got := map[string]bool{}
+		for _, o := range outs {
+			if len(o.Effects) > 0 {
+				got["versioned"] = true
+			} else {
+				got["current"] = true
+			}
+		}
+		want := "current"
+		if has {
+			want = "versioned"
+		}
+		keys := setKeys(got)
+		construct := fmt.Sprintf("initFetcher:cell(cid.HasValue=%v)", has)
+		if trunc || param == nil {
+			c.Unknown(rule, construct, initF.Decl.Pos(), "could not enumerate initFetcher")
+			continue
+		}
+		c.Check(len(keys) == 1 && keys[0] == want, rule, construct, initF.Decl.Pos(), want+" fetcher",
+			fmt.Sprintf("with cid.HasValue()=%v initFetcher installs %v, required %q", has, keys, want))
+	}
 }
